@@ -602,10 +602,49 @@ PARTITIONS = {
 }
 
 
+SETUP_ENTRY_POINTS = {"set_spline_1f1", "set_spline_1f1_with_grad", "set_global_convolution_exponent", "cider_fft_initialize"}
+
+
+def unit_static_state(ctx):
+    """Routines of the C libraries run inside parallel regions — their own, or PySCF's (the GTO evaluation callbacks of frac_lapl.c / fast_sdmx.c are called
+    from GTOeval_loop's worksharing loop).  State that outlives a call and is written by it is shared by all threads: no function body declares a `static`
+    local variable, and file-scope variables are written only by the documented set-up entry points (called serially from Python before any evaluation)."""
+    from cvc.csym import _walk
+    fq = []
+    found = []
+    nfn = 0
+    for rel in FILES + HELPER_TUS + ["xc_utils/libxc_baselines.c"]:
+        tu = cparse.load(rel)
+        mutable = {k for k, v in tu.globals.items() if "const" not in v.get("type", {}).get("qualType", "") and not v.get("loc", {}).get("includedFrom")}
+        for fn, node in tu.functions.items():
+            if not any(c.get("kind") == "CompoundStmt" for c in node.get("inner", [])) or fn.startswith("__"):
+                continue
+            nfn += 1
+            for x in _walk(node):
+                k = x.get("kind")
+                if k == "VarDecl" and x.get("storageClass") == "static" and "const" not in x.get("type", {}).get("qualType", ""):
+                    found.append("lib/%s:%s declares the static local `%s`" % (rel, fn, x.get("name")))
+                op = x.get("opcode", "")
+                if (k in ("BinaryOperator", "CompoundAssignOperator") and op.endswith("=") and op not in ("==", "!=", "<=", ">=")) or (k == "UnaryOperator" and op in ("++", "--")):
+                    t = x["inner"][0]
+                    while t.get("kind") in ("ParenExpr", "ImplicitCastExpr", "ArraySubscriptExpr", "MemberExpr"):
+                        t = t["inner"][0]
+                    if t.get("kind") == "DeclRefExpr" and t.get("referencedDecl", {}).get("name") in mutable and fn not in SETUP_ENTRY_POINTS:
+                        found.append("lib/%s:%s writes the file-scope variable `%s`" % (rel, fn, t["referencedDecl"]["name"]))
+    ctx.holds("no routine keeps writable state across calls (static locals, file-scope variables) except the set-up entry points %s" % sorted(SETUP_ENTRY_POINTS),
+              not found, "; ".join(sorted(set(found))[:6]), fq, witness={"state": sorted(set(found))[:10]})
+    ctx.holds("static-state scan covered the library functions", nfn > 150, "%d function bodies" % nfn, fq)
+
+
 def units():
-    u = [("registry", unit_registry), ("scratch-ownership", unit_scratch_ownership)]
+    u = [("registry", unit_registry), ("scratch-ownership", unit_scratch_ownership), ("static-state", unit_static_state)]
     for rel, fn in omp_functions():
         u.append(("%s/%s" % (os.path.basename(rel), fn), unit_function(rel, fn)))
+    # the flat copies of the FFT wrapper (listed above as covered by C20): coverage of every element, bounds and disjointness for any team size
+    from contracts import c20
+    for ndim in (1, 2):
+        for which in ("in", "out"):
+            u.append(("fft-copy/%s/ndim%d" % (which, ndim), c20.unit_copy(ndim, which)))
     return u
 
 
